@@ -269,3 +269,55 @@ Example ex_submit_refused :
     accepted es = [0; 1] /\ refused es = [2] /\ returned es = [100] /\ owned s = [1] /\ item_count s = 1 /\
     status s = (-1)%Z.
 Proof. exact ex_refused_not_owned. Qed.
+
+(* ---- The reduction argument under the LTS (session 3, seeded change C09-6) ----
+   PoolModel.step treats one critical section as one atomic step.  That is sound for code that keeps
+   the lock discipline: every access to the state the threads share, every cond_wait and every
+   signal / broadcast happens with pool->mtx held.  The obligation is [disciplined] (C09/PoolDiscipline.v,
+   on fine-grained executions: lock / unlock / wait / wake / shared access / thread-local code); it is
+   CHECKED on the real threadpool.c in every execution of the tie (props/C09/shim_sched.c, guard_check;
+   signature tie:lock-discipline) instead of being assumed, and the schedule search pre-empts threads at
+   the entry of cond_wait (mutex held, not yet a waiter), at the entry of a broadcast and after unlock.
+   What follows from it: *)
+From SqfsV Require Import C09.PoolDiscipline.
+
+(* while a thread holds the mutex, every event of another thread is thread-local *)
+Theorem pool_sections_atomic : forall pre h u a post t,
+  ok h (pre ++ (u, a) :: post) = true -> hafter h pre = Some t -> u <> t -> a = ALocal.
+Proof. exact sections_atomic_l. Qed.
+
+(* every execution that respects the mutex and the discipline is equivalent (same events per thread, same
+   order of all shared accesses and lock operations; only thread-local events of other threads moved) to
+   a legal disciplined execution in which every critical section is one contiguous block = one step *)
+Theorem pool_reduction : forall tr, ok None tr = true ->
+  contiguous None (normalise tr) = true /\
+  ok None (normalise tr) = true /\
+  (forall u, proj u (normalise tr) = proj u tr) /\
+  sync (normalise tr) = sync tr.
+Proof. exact reduction_l. Qed.
+
+Print Assumptions pool_sections_atomic.
+Print Assumptions pool_reduction.
+
+(* non-vacuity: an interleaved execution of the unchanged code (foreign thread-local events inside two
+   critical sections) meets the hypothesis and is not contiguous; its normal form is *)
+Example ex_discipline_holds : ok None ex_trace = true /\ contiguous None ex_trace = false.
+Proof. exact ex_trace_ok. Qed.
+
+Example ex_discipline_normal_form :
+  normalise ex_trace =
+  [ (0, ALocal); (1, ALock); (1, AShared); (1, AWait);
+    (1, ALocal); (0, ALock); (0, AShared); (0, AShared); (0, AUnlock);
+    (0, ALocal); (1, AWake); (1, AShared); (1, AUnlock); (1, ALocal) ] /\
+  contiguous None (normalise ex_trace) = true.
+Proof. exact ex_trace_normalised. Qed.
+
+(* the hypothesis is needed: the interleaving of seeded change C09-6 (destroy() writes status and
+   broadcasts without the mutex while the worker is between its predicate and pthread_cond_wait) is a
+   legal execution of the mutex, is not disciplined, and a foreign shared access sits inside the worker's
+   critical section *)
+Example ex_c09_6_outside_the_model :
+  mutex_ok None c09_6_trace = true /\ disciplined None c09_6_trace = false /\
+  hafter None [ (1, ALock); (1, AShared) ] = Some 1 /\
+  nth_error c09_6_trace 2 = Some (0, AShared).
+Proof. exact c09_6_not_disciplined. Qed.
